@@ -118,6 +118,7 @@ type FuncEnc struct {
 	noPreserveOuter  map[*ssa.Alloc]bool
 	invAsGoal        bool // loop invariant formulas are being built as proof goals (not assumptions)
 	fvBind           map[*ssa.FreeVar]ssa.Value
+	Imprecise        []string          // over-approximations that make obligations undecidable here (untraced function values, unmodelled instructions)
 	BodyErrs         []string          // "request body could not be read/decoded" conditions seen so far
 }
 
